@@ -23,8 +23,8 @@ RULE = ("two real dilated wormholes; w.dilate() on each side at a random point (
         "decision traces.")
 ASSUMPTIONS = ["Noise stand-in", "convergence bound: 600 virtual seconds after the last fault (ping interval 5 s)",
                "mailbox control messages are FIFO per sender (plain real server)"]
-FLOORS = {"quick": {"probes": 100000, "connected_cases": 250, "faults": 300, "reconverged": 200, "bulk_cases": 30},
-          "thorough": {"probes": 3000000, "connected_cases": 8000, "faults": 7000, "reconverged": 7000, "bulk_cases": 900}}
+FLOORS = {"quick": {"probes": 100000, "connected_cases": 250, "faults": 300, "reconverged": 200, "bulk_cases": 30, "bystander_pairs": 80},
+          "thorough": {"probes": 3000000, "connected_cases": 8000, "faults": 7000, "reconverged": 7000, "bulk_cases": 900, "bystander_pairs": 2000}}
 
 
 def cases(tier, seed, prep=None):
@@ -83,6 +83,14 @@ def run_case(spec):
     drv.factories = {"A": {}, "B": {}}
     sch = Scheduler(world, drv, strategy=rng.choice(["random", "pct", "netfirst", "timersfirst"]), chunking="mixed" if not spec.get("bytewise") else "bytewise-start",
                     tiny_budget=rng.choice([100, 1000]))
+    by = None
+    if spec["seed"] % 4 == 2 and not spec.get("bulk"):
+        # a second, undisturbed pair in the same process dilates at some other moment: whatever the first pair
+        # does while selecting, reconnecting or stopping connectors must leave it alone
+        by = DilatedPair(world, ping_interval=5.0, dilate_now=False, code="78-by-stander")
+        for n_ in "AB":
+            sch.faults.append((rng.randint(0, 260), (lambda n_=n_: by.dilate(n_)), "bystander %s dilates" % n_))
+        sch.faults.sort(key=lambda f: f[0])
     bulk = {"started": False, "obj": None}
     if spec.get("bulk"):
         r.blackhole_sndbuf = 2 ** 18
@@ -194,7 +202,7 @@ def run_case(spec):
         sch.faults.append((at, (lambda k=rng.choice(["both", "both", "leader-first", "follower-first", "candidate"]): fault(k)), "fault"))
     sch.faults.sort(key=lambda f: f[0])
     sch.run(1200 + (150 * spec["nfaults"] if spec["nfaults"] >= 6 else 0))
-    end = sch.drain(600.0, 60000, until=lambda: dp.both_connected() and all(started.values()))
+    end = sch.drain(600.0, 60000, until=lambda: dp.both_connected() and all(started.values()) and (by is None or by.both_connected()))
     viol = []
 
     def wit():
@@ -221,6 +229,11 @@ def run_case(spec):
         if not same_link:
             viol.append({"key": "C11/connected-on-different-links", "msg": "both Managers CONNECTED but their selected connections are not the two ends of one link",
                          "witness": wit()})
+    if by is not None and not by.both_connected() and by.dw["A"] is not None and by.dw["B"] is not None:
+        viol.append({"key": "C11/bystander-pair-not-connected/%s-%s" % (by.mstate("A"), by.mstate("B")),
+                     "msg": "a second pair in the same process, never disturbed by the harness, is %s/%s at the end" % (by.mstate("A"), by.mstate("B")), "witness": wit()})
+    if converged:
+        pass
     elif all(started.values()):
         viol.append({"key": "C11/no-reconvergence/%s-%s" % (dp.mstate("A"), dp.mstate("B")),
                      "msg": "600 virtual s after the last fault the Managers are %s/%s (roles %s/%s)" % (dp.mstate("A"), dp.mstate("B"), dp.role("A"), dp.role("B")),
@@ -236,7 +249,7 @@ def run_case(spec):
     return {"violations": viol, "nontrivial": nontrivial,
             "counters": {"probes": probes["n"], "connected_cases": int(probes["connected_once"]), "faults": faults["done"],
                          "faults_skipped": faults["skipped"], "reconverged": int(converged and same_link),
-                         "l2_links": len(dp.l2_links()), "relay_cases": int(spec["relay"]), "bulk_cases": int(bulk["started"]), "bytewise_cases": int(bool(spec.get("bytewise"))),
+                         "l2_links": len(dp.l2_links()), "relay_cases": int(spec["relay"]), "bulk_cases": int(bulk["started"]), "bystander_pairs": int(by is not None), "bytewise_cases": int(bool(spec.get("bytewise"))),
                          "bulk_bytes": bulk["obj"].written if bulk["obj"] else 0, "far_end_gone_at_probe": probes["far_end_gone"],
                          **{"fault_" + k: faults["kinds"].count(k) for k in set(faults["kinds"])},
                          "notrans_seen": len(MON.notrans)},
